@@ -12,7 +12,8 @@ From TK Require Import Mat_Sums Mat_Core Mat_Qc Mat_EigSelect EigSelect Mat_EigS
                        Mds_Model Mds_Spec Mds_Exec Mds_Proof Mds_Proof_Solver Mds_Proof_Qc
                        Mds_Proof_Isomap Dijkstra_Spec Spectral_KyFan Mds_Proof_Optimal Mds_Proof_Rank
                        Spectral_Randomized Mds_Spec_Wtol Mds_Model_Randomized Mds_Proof_Randomized Mds_Exec_Wave2
-                       Mds_Proof_OptimalClamped Mds_Model_Par Mds_Proof_Par.
+                       Mds_Proof_OptimalClamped Mds_Model_Par Mds_Proof_Par
+                       Mds_Model_Range Mds_Proof_Range.
 Import ListNotations.
 Local Open Scope nat_scope.
 
@@ -957,3 +958,66 @@ Example Mds_distance_matrix_orphaned_nonvacuous :
 Proof.
   split; [vm_compute; intros [H|H]; [discriminate H|exact H]|vm_compute; reflexivity].
 Qed.
+
+(* ---------------------------------------------------------------------------------------------------------------- *)
+(* 28 (wave 4).  WHERE the samples come from: a container kind is a map position -> address into a memory of sample ids
+   (vector, strided / reversing adaptor, deque blocks); begin[p] = mem (addr p), everything else is a decoy.  The
+   squared-distance matrix depends on the container only through the sequence the range denotes; the variant that reads
+   through `&*begin` is right exactly under contiguity; an identity fast path is right behind a STRICT guard and wrong
+   behind std::is_sorted.                                                                                            *)
+Theorem Mds_distance_matrix_denoted_sequence :
+  forall (F : Type) (Fo : FieldOps F) (n : nat) (mem mem' addr addr' : nat -> nat) (cb : mat F),
+    (forall p, p < n -> mem (addr p) = mem' (addr' p)) ->
+    meq n n (cdm_range mem addr cb) (cdm_range mem' addr' cb).
+Proof. exact cdm_range_denoted. Qed.
+Print Assumptions Mds_distance_matrix_denoted_sequence.
+
+Example Mds_distance_matrix_denoted_sequence_nonvacuous :
+  (forall p, p < 2 -> rg_mem (rg_addr p) = (fun a : nat => a) ((fun q : nat => q) p)) /\
+  mtab 2 2 (cdm_range rg_mem rg_addr rg_cb) = [[0%Qc; 1%Qc]; [1%Qc; 0%Qc]].
+Proof.
+  split; [intros p Hp; destruct p as [|[|p]]; [reflexivity|reflexivity|lia]|vm_compute; reflexivity].
+Qed.
+
+Theorem Mds_distance_matrix_range_is_table :
+  forall (F : Type) (Fo : FieldOps F) (n : nat) (mem addr ids : nat -> nat) (cb : mat F),
+    (forall p, p < n -> mem (addr p) = ids p) ->
+    meq n n (cdm_range mem addr cb) (dist_sq_matrix (fun p q => cb (ids p) (ids q))).
+Proof. exact cdm_range_is_table. Qed.
+Print Assumptions Mds_distance_matrix_range_is_table.
+
+Theorem Mds_distance_matrix_contiguity_ok :
+  forall (F : Type) (Fo : FieldOps F) (n : nat) (mem addr : nat -> nat) (cb : mat F),
+    (forall p, p < n -> addr p = addr 0 + p) ->
+    meq n n (cdm_contig mem addr cb) (cdm_range mem addr cb).
+Proof. exact cdm_contig_contiguous_ok. Qed.
+Print Assumptions Mds_distance_matrix_contiguity_ok.
+
+Theorem Mds_distance_matrix_contiguity_refuted :
+  exists (n : nat) (mem addr : nat -> nat) (cb : mat Qc),
+    ~ meq n n (cdm_contig mem addr cb) (cdm_range mem addr cb).
+Proof. exact cdm_contig_refuted. Qed.
+Print Assumptions Mds_distance_matrix_contiguity_refuted.
+
+Theorem Mds_identity_guard_strict :
+  forall (ids : nat -> nat) (n : nat), identity_guard sorted_strict_b ids n = true ->
+    forall p, p < n -> ids p = p.
+Proof. exact strict_guard_identity. Qed.
+Print Assumptions Mds_identity_guard_strict.
+
+Example Mds_identity_guard_strict_nonvacuous :
+  identity_guard sorted_strict_b (fun p => p) 5 = true /\ identity_guard sorted_strict_b fp_ids 4 = false.
+Proof. split; vm_compute; reflexivity. Qed.
+
+Theorem Mds_distance_matrix_fastpath_strict_ok :
+  forall (F : Type) (Fo : FieldOps F) (n : nat) (ids : nat -> nat) (cb : mat F),
+    meq n n (cdm_fastpath sorted_strict_b n ids cb) (dist_sq_matrix (fun p q => cb (ids p) (ids q))).
+Proof. exact cdm_fastpath_strict_ok. Qed.
+Print Assumptions Mds_distance_matrix_fastpath_strict_ok.
+
+Theorem Mds_distance_matrix_fastpath_nonstrict_refuted :
+  exists (n : nat) (ids : nat -> nat) (cb : mat Qc),
+    identity_guard sorted_nonstrict_b ids n = true /\
+    ~ meq n n (cdm_fastpath sorted_nonstrict_b n ids cb) (dist_sq_matrix (fun p q => cb (ids p) (ids q))).
+Proof. exact cdm_fastpath_nonstrict_refuted. Qed.
+Print Assumptions Mds_distance_matrix_fastpath_nonstrict_refuted.
